@@ -731,13 +731,18 @@ func (m *fullMon) c11Pair(call *APICall, verb string, oj, nj *execution.Job) {
 			m.v("C09/task-forgotten", "%s: task %s disappeared from status.tasks", fmtJob(oj), or.Name)
 			return
 		}
-		if or.RunningTimestamp != nil && (nr.RunningTimestamp == nil || !nr.RunningTimestamp.Equal(or.RunningTimestamp)) {
-			m.v("C11/running-time-changed", "%s: task %s runningTimestamp changed from %v to %v", fmtJob(oj), or.Name, or.RunningTimestamp, nr.RunningTimestamp)
+		// the statement says "never cleared": an estimated time (task observed as gone) may later be
+		// replaced by the real one reported by the kubelet.
+		if or.RunningTimestamp != nil && nr.RunningTimestamp == nil {
+			m.v("C11/running-time-cleared", "%s: task %s runningTimestamp %v was cleared", fmtJob(oj), or.Name, or.RunningTimestamp)
 			return
 		}
-		if or.FinishTimestamp != nil && (nr.FinishTimestamp == nil || !nr.FinishTimestamp.Equal(or.FinishTimestamp)) {
-			m.v("C11/finish-time-changed", "%s: task %s finishTimestamp changed from %v to %v", fmtJob(oj), or.Name, or.FinishTimestamp, nr.FinishTimestamp)
+		if or.FinishTimestamp != nil && nr.FinishTimestamp == nil {
+			m.v("C11/finish-time-cleared", "%s: task %s finishTimestamp %v was cleared", fmtJob(oj), or.Name, or.FinishTimestamp)
 			return
+		}
+		if (or.RunningTimestamp != nil && !nr.RunningTimestamp.Equal(or.RunningTimestamp)) || (or.FinishTimestamp != nil && !nr.FinishTimestamp.Equal(or.FinishTimestamp)) {
+			m.stat("mon.c11.task_time_revised")
 		}
 	}
 	ctrl := ctrlOfCall(call)
